@@ -602,11 +602,19 @@ def _run_disk(doc: dict) -> dict:
                 if not ok or not okk:
                     viol.append((f"{tag}:unauthenticated_bytes_deserialised", {"len": len(b) if isinstance(b, (bytes, str)) else None, "was_written_under_current_key": ok, "was_written_for_this_cache_key": okk}))
                     break
+            if disk.lib_unpickled:
+                # the storage library unpickles a row stored in pickle mode inside Cache.get(), before DiskCache has seen - let alone
+                # authenticated - anything: DiskCache writes only bytes and str, so such a row is never its own
+                viol.append((f"{tag}:storage_library_deserialised_an_unauthenticated_row", {"rows": sorted(set(map(str, disk.lib_unpickled)))[:3]}))
+                del disk.lib_unpickled[:]
         else:
             for b in shim.loads_seen:
                 if b not in shim.dumped:
                     viol.append((f"{tag}:unauthenticated_bytes_deserialised", {"len": len(b) if isinstance(b, (bytes, str)) else None}))
                     break
+            if getattr(shim, "lib_loads", None):
+                viol.append((f"{tag}:storage_library_deserialised_an_unauthenticated_row", {"times": len(shim.lib_loads)}))
+                del shim.lib_loads[:]
         return w
 
     def invoked_cacheable(w) -> list[str]:
